@@ -77,6 +77,13 @@ impl Num for BigDecimal {
                 // split into leading and trailing digits
                 let (lead, trail) = (&base_part[..loc], &base_part[loc + 1..]);
 
+                // a sign is only valid in front of the leading digits
+                if trail.starts_with('+') || trail.starts_with('-') {
+                    return Err(ParseBigDecimalError::Other(String::from(
+                        "Sign character after decimal point",
+                    )));
+                }
+
                 digit_buffer.reserve(lead.len() + trail.len());
                 // copy all leading characters into 'digits' string
                 digit_buffer.push_str(lead);
